@@ -43,6 +43,11 @@ class Spec(DiffSpec):
             {"name": "W: short identifiers + zero-microsecond instants only", "hashseed": 0, "args": {"entropy_salt": "", "clock_kind": "zero_us", "id_width": "short"}},
         ]
 
+    def variant_args(self, case: Dict, ref_result: Dict, variant: Dict):
+        if case.get("schedule_dir") and variant.get("reseed"):
+            return None  # a second pass continues with later schedule entries: not the same episodes
+        return super().variant_args(case, ref_result, variant)
+
     def variant_ops(self, ops: List, variant: Dict) -> List:
         if variant.get("reseed"):
             return list(ops) + [["mark"]] + list(ops)
@@ -64,6 +69,10 @@ class Spec(DiffSpec):
             s = base_seed * 1000003 + 931000 + k
             name = "uc7_config.yaml" if k % 3 else "uc7_config_tap003.yaml"
             yield {"seed": s, "shipped": name, "tap_variation": s, "max_episode_length": 70, "n_ops": 66, "monitors": [], "op_mix": {"step": 0.98, "reset": 0.0, "fault": 0.02}, "first_reset_seed": s % 100000, "io": dict(IO_OFF)}
+        # episode-scheduled directories: which episode a reset builds must not depend on output settings
+        for k, d in enumerate(["scenario_with_placeholders", "mini_scenario_with_simulation_variation"] * (1 if tier == "quick" else 5)):
+            s = base_seed * 1000003 + 932000 + k
+            yield {"seed": s, "schedule_dir": d, "n_ops": 40, "monitors": [], "op_mix": {"step": 0.8, "reset": 0.17, "fault": 0.03}, "io_override": dict(IO_OFF)}
         for i in range(n):
             s = base_seed * 1000003 + 30000000 + i
             prof = {"n_green": (1, 3), "n_red": (1, 2), "tight_links": 0.3, "io_on": 0.0, "action_map_size": (20, 60)}
